@@ -18,7 +18,7 @@ import math
 import pathlib
 import traceback
 import xml.etree.ElementTree as ET
-from typing import Any, Dict, List, Optional, Tuple
+from typing import Any, Dict, List, Optional, Sequence, Tuple
 
 from harness import mm
 
@@ -126,7 +126,7 @@ class Model:
         return out
 
     # -- rendering ------------------------------------------------------------------------------------
-    def render(self, extra_items: str = "") -> Tuple[str, Dict[str, str]]:
+    def render(self, extra_items: str = "", impl: Sequence[str] = ()) -> Tuple[str, Dict[str, str]]:
         """Meta-model text and the snippets (implementation-specific methods) it needs."""
         from aas_core_codegen.python import naming as pn
         from aas_core_codegen.common import Identifier
@@ -145,6 +145,8 @@ class Model:
             s = ""
             if c["abstract"]:
                 s += "@abstract\n"
+            if name in impl:
+                s += "@implementation_specific\n"
             if c["wmt"]:
                 s += "@serialization(with_model_type=True)\n"
             s += "class %s(%s):\n" % (name, ", ".join(list(c["bases"]) + ["DBC"]))
@@ -197,7 +199,12 @@ class Model:
 
 
 class Sdk:
-    def __init__(self, model: Model, scratch: pathlib.Path, extra_items: str = "") -> None:
+    def __init__(self, model: Model, scratch: pathlib.Path, extra_items: str = "", impl: Sequence[str] = (), need: Optional[Sequence[str]] = None) -> None:
+        """``impl``: concrete classes to be declared ``@implementation_specific``; their ``Types/<cls>.py`` snippet is the class
+        as the generator itself emits it (taken from a first generation without the decorator), the other snippets such a
+        class needs are stubs.  ``need``: the modules that have to be importable (default: all)."""
+        import inspect
+
         from aas_core_codegen.python import naming as pn
         from aas_core_codegen.common import Identifier
 
@@ -207,14 +214,27 @@ class Sdk:
         text, snippets = model.render(extra_items)
         self.text = text
         self.gen = mm.generate_python_sdk(text, scratch, snippets=snippets)
+        if impl and self.gen["rc"] == 0 and "types" in self.gen["mods"]:
+            first = self.gen
+            for c in impl:
+                low = pn.function_name(Identifier(c))
+                snippets["Types/%s.py" % c] = inspect.getsource(getattr(first["mods"]["types"], pn.class_name(Identifier(c))))
+                snippets["Jsonization/%s_from_jsonable.py" % c] = "def %s_from_jsonable(jsonable: Jsonable) -> aas_types.Class:\n    raise NotImplementedError()\n" % low
+                snippets["Xmlization/read_%s.py" % c] = "def _read_%s_as_element(element: Element, iterator: Iterator[Tuple[str, Element]]) -> aas_types.Class:\n    raise NotImplementedError()\n" % low
+                snippets["Verification/transform_%s.py" % c] = "def transform_%s(self, that: aas_types.Class) -> Iterator[Error]:\n    return\n    yield\n" % low
+            mm.drop_sdk(first)
+            text, _ = model.render(extra_items, impl=impl)
+            self.text = text
+            self.gen = mm.generate_python_sdk(text, pathlib.Path(str(scratch) + "_impl"), snippets=snippets)
         self.accepted = self.gen["rc"] == 0  # the front end and the generator took the meta-model
-        self.ok = self.accepted and not self.gen.get("import_errors")
+        errors = self.gen.get("import_errors") or {}
+        self.ok = self.accepted and not (errors if need is None else [m for m in need if m in errors or m not in self.gen["mods"]])
         self.mods = self.gen["mods"]
         if not self.ok:
             return
         self.types = self.mods["types"]
-        self.jsonization = self.mods["jsonization"]
-        self.xmlization = self.mods["xmlization"]
+        self.jsonization = self.mods.get("jsonization")
+        self.xmlization = self.mods.get("xmlization")
         self.cls_by_src = {}
         self.src_by_cls = {}
         for src in model.classes:
